@@ -44,8 +44,13 @@ func (v *vclock) release(th *thread) vclock {
 	if th.id < 0 {
 		return nil
 	}
-	v.tick(th.id)
+	for len(*v) <= th.id {
+		*v = append(*v, 0)
+	}
+	// snapshot first, then advance: accesses the thread makes AFTER the release carry a larger
+	// own-component than the released clock and are therefore not ordered before the acquirer
 	snap := append(vclock(nil), (*v)...)
+	v.tick(th.id)
 	return snap
 }
 
@@ -53,8 +58,11 @@ func (v *vclock) fork(parent, child *thread) vclock {
 	if parent.id < 0 {
 		return nil
 	}
-	v.tick(parent.id)
+	for len(*v) <= parent.id {
+		*v = append(*v, 0)
+	}
 	c := append(vclock(nil), (*v)...)
+	v.tick(parent.id)
 	c.tick(child.id)
 	return c
 }
